@@ -434,9 +434,10 @@ class Ctx(object):
 def begin(mode):
     """Start an execution: fresh log, mode, no arms."""
     gc.collect()
+    budget = _real_monotonic() + 0.5
     for t in list(instr.TRACKED):
         if t.vf_started and t.is_alive():
-            instr._RealThread.join(t, 0.5)
+            instr._RealThread.join(t, max(0.0, budget - _real_monotonic()))
     instr.reset_case()
     instr.set_mode(mode)
 
@@ -460,7 +461,14 @@ def end(ctx, res=None):
                 pass
     st = instr._RealThread(target=_shutdown_all, daemon=True)
     st.start()
-    st.join(3.0)
+    st.join(2.0)
+    if st.is_alive():
+        # a shutdown is stuck behind a parked library thread / actor: unwind them
+        for _ in range(5):
+            instr.abort_all_parked()
+            st.join(0.5)
+            if not st.is_alive():
+                break
     instr.release_all_waiters()
     instr.abort_parked_actors()
     for t in list(instr.TRACKED):
@@ -469,7 +477,10 @@ def end(ctx, res=None):
             if t.is_alive():
                 # parked again (e.g. executor never shut down): wake once more
                 instr.release_all_waiters()
-                instr._RealThread.join(t, 1.0)
+                instr._RealThread.join(t, 0.5)
+                if t.is_alive():
+                    instr.abort_all_parked()
+                    instr._RealThread.join(t, 0.5)
                 if t.is_alive() and "-internal" not in t.vf_role:
                     stuck.append(t.vf_role)
     for a in ctx.actors:
